@@ -185,17 +185,18 @@ Definition walk_p (v0 : V) (t : tree) : list event * bool := walk_tree t false [
 (* ---- the walk without the abnormal modes (equal to the above when the table covers the schema) *)
 
 (* the children an arm walks, in order: step, child, walked as wrapper element?, flavour *)
+Fixpoint tag_elems {A} (f : field) (asw : bool) (cfl : flavour) (l : list A) (i : nat)
+  : list (step * A * bool * flavour) :=
+  match l with
+  | [] => []
+  | a :: r => ((f, i), a, asw, cfl) :: tag_elems f asw cfl r (S i)
+  end.
+
 Definition field_children {A} (t : ty) (kids : list (field * list A)) (fl : flavour) (f : field)
   : list (step * A * bool * flavour) :=
   match fdesc_of t f with
   | None => []
-  | Some d =>
-      let fix go (l : list A) (i : nat) :=
-        match l with
-        | [] => []
-        | a :: r => ((f, i), a, is_listw (f_kind d), child_fl (f_kind d) fl) :: go r (S i)
-        end in
-      go (kids_of f kids) 0
+  | Some d => tag_elems f (is_listw (f_kind d)) (child_fl (f_kind d) fl) (kids_of f kids) 0
   end.
 
 Definition visit_children {A} (t : ty) (kids : list (field * list A)) (fl : flavour) (vi : visit)
@@ -313,9 +314,12 @@ Definition alt_ok (kids : list (field * list ty)) (g : list field) : bool :=
   Nat.leb (length (filter (fun f => nonempty (kids_of f kids)) g)) 1.
 
 (* the node itself: its fields are exactly the schema's, in order, each within its multiplicity
-   and static type, and at most one member of every alternative group is set *)
+   and static type, at most one member of every alternative group is set, and a node stored by
+   value is a leaf (Walk cannot reach the children of a struct value) *)
 Definition node_ok (t : ty) (kids : list (field * list ty)) : bool :=
-  Nat.ltb t (2 * ntypes) && fields_ok t (fields_of t) kids && forallb (alt_ok kids) (alts_of t).
+  Nat.ltb t (2 * ntypes) &&
+  (negb (by_value t) || match fields_of t with [] => true | _ => false end) &&
+  fields_ok t (fields_of t) kids && forallb (alt_ok kids) (alts_of t).
 
 Fixpoint wt_from (t : tree) : bool :=
   match t with
